@@ -24,6 +24,8 @@ type WireCase struct {
 	DefaultCode  int    `json:"defaultCode"`  // > 0: the handler returns the default response with this status code
 	// Fill: the request value, spelled out (an abstract value of the <Op>Params type); no random fill, no domain fix.
 	Fill json.RawMessage `json:"fill,omitempty"`
+
+	byStatus bool
 }
 
 var pathStrings = []string{"abc", "a b", "x&y=z", "50%", "q?r#s", "é☃", "+plus+", "a;b,c", "~tilde", "0", "-", "..x", "colon:semi", "@at", "$d", "(p)", "*star", "'q'", "%2F", "a%20b"}
@@ -129,7 +131,11 @@ func RunWire(reg Registry, rec *Recorder, g Group) {
 		client = m.Call(nil)[0]
 	}
 	_ = clientT
+	if g.ByStatus {
+		ProbeStatuses(reg, api, g.Base, rec)
+	}
 	for _, wc := range g.Wire {
+		wc.byStatus = g.ByStatus
 		runWireCase(reg, rec, ops, client, cur, wc)
 	}
 }
@@ -233,7 +239,7 @@ func runWireCase(reg Registry, rec *Recorder, ops []OpInfo, client reflect.Value
 	rec.Emit(Event{"ev": "Call", "case": wc.ID, "op": wc.Op, "sent": ProjectParams(params, false), "inject": wc.InjectStatus})
 	cur.caseID = wc.ID
 	cur.inject = wc.InjectStatus
-	script := Script{Parse: true, ReadBody: true, Resp: wc.RespType, Random: true, Seed: wc.RespSeed, Code: 210 + int(wc.RespSeed%80)} // never a documented status of the universe (200, 201, 404)
+	script := Script{Parse: true, ReadBody: true, Resp: wc.RespType, Random: true, Seed: wc.RespSeed, Code: 210 + int(wc.RespSeed%80), ByStatus: wc.byStatus} // never a documented status of the universe (200, 201, 404)
 	if wc.DefaultCode > 0 {
 		script.Default, script.Code = true, wc.DefaultCode
 	}
